@@ -198,5 +198,6 @@ def run(ctx, rep):
     rep.floor("C20.flow", "lead-out constructors", len(lo), 2)
     from rules import C11 as _C11
     compose(ctx, rep, "C11", "C20.block", r"^C11\.isrc$")
+    compose(ctx, rep, "C11", "C20.order", r"^C11\.contig$")
     # the importer, the text rendering and the offset types are total (the part of C12's audit that concerns cue sheets)
     compose(ctx, rep, "C12", "C20.total", r"^C12\.(panic|guard)$", key_only=r"(?i)cuesheet|Timestamp|CDDAOffset|MM:SS:FF|cue import")
